@@ -2,6 +2,35 @@
 import vlib, filecommon, progs
 
 
+def xml_end_sweep(v, wd, exe, seed, tier):
+    """programs whose XML section ends on, just before and just after a page payload boundary:
+    the file GUID length shifts the XML end byte by byte (a probe run measures the base layout)"""
+    import json, os
+    base = [progs.new("g" * 10), progs.pc(progs.small_protos()[0], 5, seed=seed), progs.FIN]
+    pp = os.path.join(wd, "probe.ndjson"); tp = os.path.join(wd, "probe.trace")
+    json.dump(progs.prog("probe", base, read=[{"op": "report"}]), open(pp, "w"))
+    vlib.harness(exe, ["e57-run", "--progs", pp, "--out", tp])
+    hdr = None
+    for line in open(tp):
+        e = json.loads(line)
+        if e["ev"] == "r_report" and "ok" in e["res"]:
+            hdr = e["res"]["ok"]["header"]
+    os.remove(tp)
+    if hdr is None:
+        return []
+    nat = lambda l: l[0] + (l[1] << 16)
+    xoff, xlen = nat(hdr["xml_offset"]), nat(hdr["xml_length"])
+    end = xoff - 4 * (xoff // 1024) + xlen          # logical end of the XML with a 10-character GUID
+    need = (-end) % 1020                              # extra GUID characters to end exactly on a boundary
+    deltas = range(0, 1020) if tier == "thorough" else [need + d for d in (-2, -1, 0, 1, 2)] + [need + 1020]
+    out = []
+    for d in deltas:
+        if 10 + d < 1:
+            continue
+        out.append(progs.prog(f"xmlend{d - need}", [progs.new("g" * (10 + d)), progs.pc(progs.small_protos()[0], 5, seed=seed), progs.FIN]))
+    return out
+
+
 def run(tier, seed, args):
     v = vlib.Verdict("C02", tier, seed, "model_checking")
     wd = vlib.workdir("C02")
@@ -12,6 +41,7 @@ def run(tier, seed, args):
     ps = progs.c01_programs(seed, tier) + progs.c06_programs(seed + 1, tier)
     if tier == "thorough":
         ps += progs.c12_programs(seed + 2, "quick")
+    ps += xml_end_sweep(v, wd, exe, seed, tier)
     filecommon.run_programs(v, wd, exe, ps, "c02", focus=("C02",))
     v.add(states=v.cov.get("trace_events", 0), transitions=v.cov.get("trace_events", 0),
           rule="one case = one successful writer program from the C01 and C06 generators (section starts swept over residues mod 1020); the judge is the TLA+ decoder: whole pages, every page checksum (CRC-32C from the polynomial), header fields, XML well-formed/namespace, offsets outside checksum bytes on sections of the right kind, section/packet lengths and 4-byte alignment, decoded content = API inputs",
